@@ -1613,3 +1613,8 @@ if __name__ == "__main__":
         print(_src(R))
         print(sorted(R.labels))
     print(json.dumps(expand_model(case["model"])["eqs"], indent=0)[:3000])
+
+import os as _os
+if _os.environ.get("C04_DEBUG"):
+    import faulthandler as _fh, signal as _sg
+    _fh.register(_sg.SIGUSR1, file=open("/tmp/c04/fault_%d.txt" % _os.getpid(), "w"), all_threads=True)
